@@ -241,8 +241,11 @@ prop("C14",
 prop("C08",
      axioms="reals",
      design_ref="DESIGN.md section 5 C08",
-     technique="Rocq proof about the sample-table walk for all tables (each sample once, sizes, contiguous media-time intervals; offset formula and bounds) + in-Coq correspondence on MP4 files synthesised with mp4ff for every kind of valid layout and for hostile tables",
-     text="Theorems about the Gallina port of Decoder.Decode/decodeTrak/offsets (after the repair D14): for any tables a successful walk returns exactly the declared samples, "
+     technique="Rocq proof that the sample-table walk equals a direct per-chunk specification for every valid layout (C08_walk_is_spec: any increasing stsc runs, any stts runs, any sizes/offsets), and for all tables: each sample once, sizes, contiguous media-time intervals, samples read back to back from existing chunks; offset formula and bounds + in-Coq correspondence on MP4 files synthesised with mp4ff for every kind of valid layout and for hostile tables",
+     text="Theorems about the Gallina port of Decoder.Decode/decodeTrak/offsets (after the repair D14): C08_walk_is_spec - for every valid sample-to-chunk table (entries increasing from chunk 1, "
+          "naming existing chunks, minimal or redundant), any time-to-sample runs, sizes and chunk offsets, the walk IS 'chunks 1..C in order, chunk c holding spc_of c samples read back to back from its "
+          "offset, sample k with the k-th size and the k-th duration of the expanded runs, until the declared count'; C08_samples_placed - on any tables every sample comes from an existing chunk, "
+          "contiguously; for any tables a successful walk returns exactly the declared samples, "
           "k-th with the k-th stsz size, media-time intervals contiguous from 0 in presentation order; reading i of n gets start+i*(end-start)/n, starting at the sample's "
           "start, never decreasing, inside its own interval; no GoPro metadata track = error.  Tied to the code by decoding synthesised MP4s (all compositions into chunks, "
           "minimal/redundant stsc runs, stts run splits, shuffled chunk placement, stco/co64, 6 timescales, other tracks) and comparing the whole tree and every reading's offset.",
